@@ -392,6 +392,9 @@ func (r *sysRun) start() bool {
 					q = mg.pattern.AsString()
 				}
 				r.sim.Logf("EvtSearchFin q=%q n=%d final=%v rev=%v", q, mg.Length(), mg.final, mg.revision)
+				if os.Getenv("VERIF_TRACK_CURSOR") != "" && r.t != nil {
+					r.sim.Logf("  cursor before this list is taken: cy=%d offset=%d track=%v", r.t.cy, r.t.offset, r.t.track)
+				}
 				if v := os.Getenv("VERIF_TRACK_ITEM"); v != "" {
 					want, _ := strconv.Atoi(v)
 					for i := 0; i < mg.Length(); i++ {
@@ -565,6 +568,9 @@ func (r *sysRun) user() {
 			r.userWait = true
 			<-r.resume
 			r.userWait = false
+			if os.Getenv("VERIF_TRACK_CURSOR") != "" && r.t != nil {
+				r.sim.Logf("  at rest: cy=%d offset=%d track=%v previewer.version=%d", r.t.cy, r.t.offset, r.t.track, r.t.previewer.version)
+			}
 		default:
 			if h := sysEventHandlers[ev.Kind]; h != nil {
 				h(r, ev)
